@@ -7,6 +7,7 @@ import (
 	"strconv"
 	"strings"
 	"time"
+	"unicode/utf8"
 
 	"evylang.dev/evy/pkg/parser"
 )
@@ -332,7 +333,11 @@ var indexDecl = &parser.FuncDefStmt{
 func indexFunc(_ *scope, args []value) (value, error) {
 	s := args[0].(*stringVal).V
 	substr := args[1].(*stringVal).V
-	return &numVal{V: float64(strings.Index(s, substr))}, nil
+	i := strings.Index(s, substr)
+	if i > 0 {
+		i = utf8.RuneCountInString(s[:i]) // position in characters, not bytes
+	}
+	return &numVal{V: float64(i)}, nil
 }
 
 var startswithDecl = &parser.FuncDefStmt{
